@@ -59,6 +59,8 @@ structure WF (σ : State) : Prop where
   refsCells : ∀ r, r < σ.nRef → ∀ j ∈ σ.refBuf r, j < σ.nObj ∧ (σ.obj j).tag = .cell
   off0 : ∀ i, i < σ.nObj → (σ.obj i).tag ≠ .slice → (σ.obj i).off = 0
   bk : ∀ i, i < σ.nObj → (σ.obj i).tag = .builder → (σ.obj i).kind = -1
+  /-- `ref_offset ≤ len(refs)`: `load_ref` raises at the end of the list instead of moving past it; lists only grow -/
+  offLe : ∀ i, i < σ.nObj → (σ.obj i).off ≤ (σ.refBuf (σ.obj i).refsId).length
 
 /-- SEPARATION: a container a Slice or Builder points to (and mutates) is pointed to by no other object -
 not by a Cell, not by another Slice/Builder, not by an array/list the caller holds. -/
@@ -82,7 +84,7 @@ structure Inv (H : Bytes → Bytes) (σ : State) : Prop where
   coh : Coh H σ
 
 theorem inv_init (H) : Inv H init := by
-  refine ⟨⟨?_, ?_, ?_, ?_, ?_⟩, ⟨?_, ?_⟩, ⟨?_, ?_⟩⟩ <;> simp [init]
+  refine ⟨⟨?_, ?_, ?_, ?_, ?_, ?_⟩, ⟨?_, ?_⟩, ⟨?_, ?_⟩⟩ <;> simp [init, ObjRec.blank]
 
 /-! ### Frame lemmas for the primitives -/
 
@@ -91,8 +93,8 @@ theorem vals_congr {σ σ' : State} {l : List Nat} (h : ∀ j ∈ l, (σ'.obj j)
   unfold vals; exact List.map_congr_left h
 
 theorem inv_allocB {H σ} (h : Inv H σ) (bs : Bits) : Inv H (σ.allocB bs) := by
-  obtain ⟨⟨a1, a2, a3, a4, a5⟩, ⟨s1, s2⟩, ⟨c1, c2⟩⟩ := h
-  refine ⟨⟨?_, a2, a3, a4, a5⟩, ⟨s1, s2⟩, ⟨?_, c2⟩⟩
+  obtain ⟨⟨a1, a2, a3, a4, a5, a6⟩, ⟨s1, s2⟩, ⟨c1, c2⟩⟩ := h
+  refine ⟨⟨?_, a2, a3, a4, a5, a6⟩, ⟨s1, s2⟩, ⟨?_, c2⟩⟩
   · intro i hi ht; have := a1 i hi ht; simp; omega
   · intro i hi ht
     simp only [allocB_obj, allocB_nObj] at hi ht
@@ -102,14 +104,21 @@ theorem inv_allocB {H σ} (h : Inv H σ) (bs : Bits) : Inv H (σ.allocB bs) := b
 
 theorem inv_allocR {H σ} (h : Inv H σ) (rs : List Nat) (hrs : ∀ j ∈ rs, j < σ.nObj ∧ (σ.obj j).tag = .cell) :
     Inv H (σ.allocR rs) := by
-  obtain ⟨⟨a1, a2, a3, a4, a5⟩, ⟨s1, s2⟩, ⟨c1, c2⟩⟩ := h
-  refine ⟨⟨a1, ?_, ?_, a4, a5⟩, ⟨s1, s2⟩, ⟨?_, c2⟩⟩
+  obtain ⟨⟨a1, a2, a3, a4, a5, a6⟩, ⟨s1, s2⟩, ⟨c1, c2⟩⟩ := h
+  refine ⟨⟨a1, ?_, ?_, a4, a5, ?_⟩, ⟨s1, s2⟩, ⟨?_, c2⟩⟩
   · intro i hi ht; have := a2 i hi ht; simp; omega
   · intro r hr j hj
     simp only [allocR_refBuf, allocR_nRef, allocR_obj, allocR_nObj] at hr hj ⊢
     by_cases e : r = σ.nRef
     · simp [e] at hj; exact hrs j hj
     · simp [e] at hj; exact a3 r (by omega) j hj
+  · intro i hi
+    simp only [allocR_refBuf, allocR_obj, allocR_nObj] at hi ⊢
+    by_cases hs : (σ.obj i).tag = .slice
+    · have := a2 i hi (by simp [hs, Tag.hasRefs])
+      have e : (σ.obj i).refsId ≠ σ.nRef := by omega
+      simpa [e] using a6 i hi
+    · rw [a4 i hi hs]; exact Nat.zero_le _
   · intro i hi ht
     simp only [allocR_obj, allocR_nObj] at hi ht
     have hb := a2 i hi (by simp [ht, Tag.hasRefs])
@@ -130,15 +139,16 @@ theorem inv_push {H σ} (h : Inv H σ) (o : ObjRec)
     (hsB2 : o.tag.hasBits = true → ∀ j, j < σ.nObj → (σ.obj j).tag.owner = true → (σ.obj j).bitsId ≠ o.bitsId)
     (hsR1 : o.tag.owner = true → ∀ j, j < σ.nObj → (σ.obj j).tag.hasRefs = true → (σ.obj j).refsId ≠ o.refsId)
     (hsR2 : o.tag.hasRefs = true → ∀ j, j < σ.nObj → (σ.obj j).tag.owner = true → (σ.obj j).refsId ≠ o.refsId)
-    (hc : o.tag = .cell → o.val = .mk o.kind (σ.bitBuf o.bitsId) (vals σ (σ.refBuf o.refsId)) ∧ Cell.info H o.val = some o.info) :
+    (hc : o.tag = .cell → o.val = .mk o.kind (σ.bitBuf o.bitsId) (vals σ (σ.refBuf o.refsId)) ∧ Cell.info H o.val = some o.info)
+    (hle : o.off ≤ (σ.refBuf o.refsId).length) :
     Inv H (σ.push o) := by
-  obtain ⟨⟨a1, a2, a3, a4, a5⟩, ⟨s1, s2⟩, ⟨c1, c2⟩⟩ := h
+  obtain ⟨⟨a1, a2, a3, a4, a5, a6⟩, ⟨s1, s2⟩, ⟨c1, c2⟩⟩ := h
   have obj_old : ∀ j, j < σ.nObj → (σ.push o).obj j = σ.obj j := by
     intro j hj; have e : j ≠ σ.nObj := by omega
     simp [e]
   have obj_new : (σ.push o).obj σ.nObj = o := by simp
   have lt_cases : ∀ i, i < (σ.push o).nObj → i < σ.nObj ∨ i = σ.nObj := by intro i hi; simp at hi; omega
-  refine ⟨⟨?_, ?_, ?_, ?_, ?_⟩, ⟨?_, ?_⟩, ⟨?_, ?_⟩⟩
+  refine ⟨⟨?_, ?_, ?_, ?_, ?_, ?_⟩, ⟨?_, ?_⟩, ⟨?_, ?_⟩⟩
   · intro i hi ht
     rcases lt_cases i hi with h1 | rfl
     · rw [obj_old i h1] at ht ⊢; exact a1 i h1 ht
@@ -158,6 +168,10 @@ theorem inv_push {H σ} (h : Inv H σ) (o : ObjRec)
     rcases lt_cases i hi with h1 | rfl
     · rw [obj_old i h1] at ht ⊢; exact a5 i h1 ht
     · rw [obj_new] at ht ⊢; exact hbk ht
+  · intro i hi
+    rcases lt_cases i hi with h1 | rfl
+    · rw [obj_old i h1, push_refBuf]; exact a6 i h1
+    · rw [obj_new, push_refBuf]; exact hle
   · intro i j hi hj hne ho hb
     rcases lt_cases i hi with h1 | rfl <;> rcases lt_cases j hj with h2 | rfl
     · rw [obj_old i h1] at ho ⊢; rw [obj_old j h2] at hb ⊢; exact s1 i j h1 h2 hne ho hb
@@ -188,8 +202,8 @@ theorem inv_push {H σ} (h : Inv H σ) (o : ObjRec)
 /-- an owner's bit buffer may be overwritten: no cell (nor anything else) points to it -/
 theorem inv_setB {H σ} (h : Inv H σ) (i : Nat) (hi : i < σ.nObj) (ho : (σ.obj i).tag.owner = true) (bs : Bits) :
     Inv H (σ.setB (σ.obj i).bitsId bs) := by
-  obtain ⟨⟨a1, a2, a3, a4, a5⟩, ⟨s1, s2⟩, ⟨c1, c2⟩⟩ := h
-  refine ⟨⟨a1, a2, a3, a4, a5⟩, ⟨s1, s2⟩, ⟨?_, c2⟩⟩
+  obtain ⟨⟨a1, a2, a3, a4, a5, a6⟩, ⟨s1, s2⟩, ⟨c1, c2⟩⟩ := h
+  refine ⟨⟨a1, a2, a3, a4, a5, a6⟩, ⟨s1, s2⟩, ⟨?_, c2⟩⟩
   intro c hc ht
   simp only [setB_obj, setB_nObj] at hc ht
   have hne : i ≠ c := by intro e; subst e; rw [ht] at ho; simp [Tag.owner] at ho
@@ -198,15 +212,23 @@ theorem inv_setB {H σ} (h : Inv H σ) (i : Nat) (hi : i < σ.nObj) (ho : (σ.ob
   simpa [e, vals] using c1 c hc ht
 
 theorem inv_setR {H σ} (h : Inv H σ) (i : Nat) (hi : i < σ.nObj) (ho : (σ.obj i).tag.owner = true) (rs : List Nat)
-    (hrs : ∀ j ∈ rs, j < σ.nObj ∧ (σ.obj j).tag = .cell) :
+    (hrs : ∀ j ∈ rs, j < σ.nObj ∧ (σ.obj j).tag = .cell) (hle : (σ.obj i).off ≤ rs.length) :
     Inv H (σ.setR (σ.obj i).refsId rs) := by
-  obtain ⟨⟨a1, a2, a3, a4, a5⟩, ⟨s1, s2⟩, ⟨c1, c2⟩⟩ := h
-  refine ⟨⟨a1, a2, ?_, a4, a5⟩, ⟨s1, s2⟩, ⟨?_, c2⟩⟩
+  obtain ⟨⟨a1, a2, a3, a4, a5, a6⟩, ⟨s1, s2⟩, ⟨c1, c2⟩⟩ := h
+  refine ⟨⟨a1, a2, ?_, a4, a5, ?_⟩, ⟨s1, s2⟩, ⟨?_, c2⟩⟩
   · intro r hr j hj
     simp only [setR_refBuf, setR_nRef, setR_obj, setR_nObj] at hr hj ⊢
     by_cases e : r = (σ.obj i).refsId
     · simp [e] at hj; exact hrs j hj
     · simp [e] at hj; exact a3 r hr j hj
+  · intro j hj
+    simp only [setR_refBuf, setR_obj, setR_nObj] at hj ⊢
+    by_cases e : j = i
+    · subst e; simpa using hle
+    · by_cases hs : (σ.obj j).tag = .slice
+      · have := s2 j i hj hi e (by simp [hs, Tag.owner]) (owner_hasRefs ho)
+        simpa [this] using a6 j hj
+      · rw [a4 j hj hs]; exact Nat.zero_le _
   · intro c hc ht
     simp only [setR_obj, setR_nObj] at hc ht
     have hne : i ≠ c := by intro e; subst e; rw [ht] at ho; simp [Tag.owner] at ho
@@ -215,9 +237,10 @@ theorem inv_setR {H σ} (h : Inv H σ) (i : Nat) (hi : i < σ.nObj) (ho : (σ.ob
     simpa [e, vals] using c1 c hc ht
 
 /-- bumping a slice's `ref_offset` -/
-theorem inv_setOff {H σ} (h : Inv H σ) (i : Nat) (ht : (σ.obj i).tag = .slice) (n : Nat) :
+theorem inv_setOff {H σ} (h : Inv H σ) (i : Nat) (ht : (σ.obj i).tag = .slice) (n : Nat)
+    (hle : n ≤ (σ.refBuf (σ.obj i).refsId).length) :
     Inv H (σ.setObj i { σ.obj i with off := n }) := by
-  obtain ⟨⟨a1, a2, a3, a4, a5⟩, ⟨s1, s2⟩, ⟨c1, c2⟩⟩ := h
+  obtain ⟨⟨a1, a2, a3, a4, a5, a6⟩, ⟨s1, s2⟩, ⟨c1, c2⟩⟩ := h
   have tg : ∀ j, ((σ.setObj i { σ.obj i with off := n }).obj j).tag = (σ.obj j).tag := by
     intro j; by_cases e : j = i <;> simp [e]
   have bI : ∀ j, ((σ.setObj i { σ.obj i with off := n }).obj j).bitsId = (σ.obj j).bitsId := by
@@ -231,7 +254,7 @@ theorem inv_setOff {H σ} (h : Inv H σ) (i : Nat) (ht : (σ.obj i).tag = .slice
   have inf : ∀ j, ((σ.setObj i { σ.obj i with off := n }).obj j).info = (σ.obj j).info := by
     intro j; by_cases e : j = i <;> simp [e]
   have vs : ∀ l, vals (σ.setObj i { σ.obj i with off := n }) l = vals σ l := fun l => vals_congr (fun j _ => vl j)
-  refine ⟨⟨?_, ?_, ?_, ?_, ?_⟩, ⟨?_, ?_⟩, ⟨?_, ?_⟩⟩
+  refine ⟨⟨?_, ?_, ?_, ?_, ?_, ?_⟩, ⟨?_, ?_⟩, ⟨?_, ?_⟩⟩
   · intro j hj; rw [tg, bI]; exact a1 j hj
   · intro j hj; rw [tg, rI]; exact a2 j hj
   · intro r hr j hj; rw [tg]; exact a3 r hr j hj
@@ -239,6 +262,11 @@ theorem inv_setOff {H σ} (h : Inv H σ) (i : Nat) (ht : (σ.obj i).tag = .slice
     have e : j ≠ i := by intro e; subst e; exact hs ht
     simpa [e] using a4 j hj hs
   · intro j hj; rw [tg, kd]; exact a5 j hj
+  · intro j hj
+    rw [rI]
+    by_cases e : j = i
+    · subst e; simpa using hle
+    · simpa [e] using a6 j hj
   · intro a b ha hb; rw [tg, tg, bI, bI]; exact s1 a b ha hb
   · intro a b ha hb; rw [tg, tg, rI, rI]; exact s2 a b ha hb
   · intro j hj; rw [tg, vl, kd, bI, rI, vs]; exact c1 j hj
@@ -292,7 +320,8 @@ theorem has_iff {σ : State} {i : Nat} {t : Tag} : σ.has i t = true ↔ i < σ.
 
 theorem inv_freshObj {H σ} (h : Inv H σ) (o : ObjRec) (bits : Bits) (refs : List Nat) (hrs : CellsAt σ refs)
     (hoff : o.tag ≠ .slice → o.off = 0) (hbk : o.tag = .builder → o.kind = -1)
-    (hc : o.tag = .cell → o.val = .mk o.kind bits (vals σ refs) ∧ Cell.info H o.val = some o.info) :
+    (hc : o.tag = .cell → o.val = .mk o.kind bits (vals σ refs) ∧ Cell.info H o.val = some o.info)
+    (hle : o.off = 0) :
     Inv H (freshObj σ o bits refs).1 := by
   have h2 : Inv H ((σ.allocB bits).allocR refs) := inv_allocR (inv_allocB h bits) refs hrs
   have a1 := h.wf.idB
@@ -313,6 +342,7 @@ theorem inv_freshObj {H σ} (h : Inv H σ) (o : ObjRec) (bits : Bits) (refs : Li
     have := hc ht
     simp [vals] at this ⊢
     exact this
+  · simp [hle]
 
 theorem cellsAt_drop {σ : State} {l : List Nat} (n : Nat) (h : CellsAt σ l) : CellsAt σ (l.drop n) :=
   fun j hj => h j (List.mem_of_mem_drop hj)
@@ -365,6 +395,7 @@ theorem inv_cellCtor {H σ} (h : Inv H σ) (ub ur : Nat) (kind : Int) : Inv H (s
       · intro _ j hj ho; rw [e3]
         exact h.sep.sepR j ur hj hur (by intro e; subst e; rw [tur] at ho; simp [Tag.owner] at ho) ho (by simp [tur, Tag.hasRefs])
       · intro _; rw [e2, e3, e5]; exact ⟨e6, e7⟩
+      · rw [e4]; exact Nat.zero_le _
     · exact h
   · exact h
 
@@ -376,7 +407,7 @@ theorem inv_cellFresh {H σ} (h : Inv H σ) (bs : Bits) (cs : List Nat) (kind : 
     split
     · rename_i c e
       obtain ⟨e1, e2, e3, e4, e5, e6, e7⟩ := mkCellRec_some h.coh hv e
-      apply inv_freshObj h c bs cs hv (fun _ => e4) (by intro e; rw [e1] at e; cases e)
+      apply inv_freshObj h c bs cs hv (fun _ => e4) (by intro e; rw [e1] at e; cases e) _ e4
       intro _; rw [e5]; exact ⟨e6, e7⟩
     · exact h
   · exact h
@@ -386,7 +417,7 @@ theorem inv_sliceFresh {H σ} (h : Inv H σ) (bs : Bits) (cs : List Nat) (kind :
   split
   · rename_i hv
     rw [allCells_iff] at hv
-    apply inv_freshObj h _ bs cs hv <;> simp
+    apply inv_freshObj h _ bs cs hv <;> simp [ObjRec.blank]
   · exact h
 
 theorem inv_builderNew {H σ} (h : Inv H σ) : Inv H (step H σ .builderNew).1 := by
@@ -411,10 +442,10 @@ theorem inv_derive {H σ} (h : Inv H σ) (src : Nat) (dst : Kind) : Inv H (step 
       split
       · rename_i c e
         obtain ⟨e1, e2, e3, e4, e5, e6, e7⟩ := mkCellRec_some h.coh hl e
-        apply inv_freshObj h c _ _ hl (fun _ => e4) (by intro e; rw [e1] at e; cases e)
+        apply inv_freshObj h c _ _ hl (fun _ => e4) (by intro e; rw [e1] at e; cases e) _ e4
         intro _; rw [e5]; exact ⟨e6, e7⟩
       · exact h
-    | slice => simp only; apply inv_freshObj h _ _ _ hl <;> simp
+    | slice => simp only; apply inv_freshObj h _ _ _ hl <;> simp [ObjRec.blank]
     | builder =>
       simp only
       split
@@ -451,7 +482,11 @@ theorem inv_loadRef {H σ} (h : Inv H σ) (s : Nat) : Inv H (step H σ (.loadRef
     rw [has_iff] at hv
     split
     · exact h
-    · exact inv_setOff h s hv.2 _
+    · rename_i c cs hd
+      refine inv_setOff h s hv.2 _ ?_
+      have := congrArg List.length hd
+      simp only [State.refsOf, List.length_drop, List.length_cons] at this
+      omega
   · exact h
 
 theorem inv_storeBits {H σ} (h : Inv H σ) (b : Nat) (bs : Bits) : Inv H (step H σ (.storeBits b bs)).1 := by
@@ -484,7 +519,7 @@ theorem inv_storeFrom {H σ} (h : Inv H σ) (b src : Nat) : Inv H (step H σ (.s
               simp only [Bool.or_eq_true, has_iff] at hs
               rcases hs with ⟨a, c⟩ | ⟨a, c⟩ <;> simp [a, c, Tag.hasRefs]
             have hl := cellsAt_append (cellsAt_refsOf h hv.1 (owner_hasRefs (builder_owner hv.2))) (cellsAt_refsOf h hsrc.1 hsrc.2)
-            exact inv_setR h1 b hv.1 (builder_owner hv.2) _ hl
+            exact inv_setR h1 b hv.1 (builder_owner hv.2) _ hl (by have := h.wf.off0 b hv.1 (by rw [hv.2]; decide); simp [this])
       · exact h
   · exact h
 
@@ -495,7 +530,7 @@ theorem inv_storeRef {H σ} (h : Inv H σ) (b c : Nat) : Inv H (step H σ (.stor
     simp only [Bool.and_eq_true, has_iff] at hv
     split
     · exact h
-    · refine inv_setR h b hv.1.1 (builder_owner hv.1.2) _ ?_
+    · refine inv_setR h b hv.1.1 (builder_owner hv.1.2) _ ?_ (by have := h.wf.off0 b hv.1.1 (by rw [hv.1.2]; decide); simp [this])
       apply cellsAt_append (cellsAt_refsOf h hv.1.1 (owner_hasRefs (builder_owner hv.1.2)))
       intro j hj; simp at hj; subst hj; exact hv.2
   · exact h
